@@ -139,8 +139,14 @@ impl<'a> Choice<'a> {
     /// all-ones patterns.
     pub fn val(&mut self, bits: u32) -> u64 {
         let mask = if bits >= 64 { u64::MAX } else { (1u64 << bits) - 1 };
-        match self.below(11) {
+        match self.below(12) {
             0 | 1 => self.below(17),
+            // a fuzzing dictionary: four-byte ASCII words from the ELF world, in either byte order
+            11 => {
+                let w = *self.pick(&[*b"ZLIB", *b"zlib", *b"ZSTD", *b"GNU\0", *b"\x7fELF", *b"CORE", *b"LINU", *b".gnu", *b".deb", *b"FDO\0"]);
+                let v = if self.bool() { u32::from_le_bytes(w) } else { u32::from_be_bytes(w) };
+                v as u64 & mask
+            }
             // a small value as it looks when read in the other byte order
             9 => {
                 let small = 1 + self.below(17);
